@@ -1572,6 +1572,96 @@ def scale_cases(ctx, cases):
                 ctx.spec_fail("ecdf_scale", "ECDF changes under rescaling of observations and argument by 2**%d" % k, rep)
             ctx.count("scale:linear-routines")
 
+
+# ----------------------------------------------------------------------------------------------------
+# glue: which hamilton_filter calls succeed (shape / error branches), periodogram(window=...) = smooth of the
+# truncated raw ordinates with smooth's errors propagated
+
+
+def glue_cases(ctx, cases):
+    from quantecon import hamilton_filter, periodogram
+    from quantecon._estspec import smooth
+    # ---- hamilton_filter: every (h, p) around the admissible region for small T -----------------------------
+    for T in ([5, 8] if not ctx.thorough else [4, 5, 6, 8, 11]):
+        yv = [F((7 * t * t + 3 * t + 5 * (t % 3)) % 41 - 20) for t in range(T)]
+        if T == 8:
+            yv = [F(ctx.rng.randint(-30, 30)) for _ in range(T)]
+        yarr = np.array([float(v) for v in yv])
+        for h in range(0, T + 3):
+            for p in [None] + list(range(0, T + 2)):
+                if p is None:
+                    status = "ok" if h <= T else "ValueError"
+                else:
+                    rows = T - p - h + 1
+                    if p + h == 0 or rows < 0:
+                        status = "ValueError"
+                    elif rows == 0:
+                        status = "LinAlgError"
+                    elif rows < p + 1:
+                        ctx.count("glue:hamilton-underdetermined-skipped")     # outcome of a rank-deficient float solve: not generated
+                        continue
+                    else:
+                        status = "ok"
+                try:
+                    cyc, trd = hamilton_filter(yarr, h, p) if p is not None else hamilton_filter(yarr, h)
+                    impl = flist(cyc) + "|" + flist(trd)
+                    got = "ok"
+                except np.linalg.LinAlgError:          # (a subclass of ValueError: must come first)
+                    impl = got = "ERR:LinAlgError"
+                except ValueError:
+                    impl = got = "ERR:ValueError"
+                rep = {"op": "hamilton", "y": [str(v) for v in yv], "h": h, "p": p}
+                ctx.count("glue:hamilton-" + got)
+                if status == "ok":
+                    # admissible by the documented shapes: must succeed and be the decomposition / projection
+                    if got != "ok":
+                        if p is not None and got == "ERR:LinAlgError":
+                            ctx.count("glue:hamilton-singular-regression")
+                            continue
+                        ctx.spec_fail("hamilton_admissible", "hamilton_filter(T=%d, h=%d, p=%s) raised %s on an admissible call" % (T, h, p, got), rep)
+                        continue
+                    bad = hamilton_bad(yv, h, p, cyc, trd, tol=1e-6)
+                    if bad:
+                        ctx.spec_fail("hamilton_admissible", "hamilton_filter(T=%d, h=%d, p=%s): %s" % (T, h, p, bad), rep)
+                elif got != "ERR:" + status:
+                    ctx.spec_fail("hamilton_inadmissible", "hamilton_filter(T=%d, h=%d, p=%s) gave %s although the shapes "
+                                  "T-p-h+1 / y[h:T]-y[0:T-h] call for %s" % (T, h, p, got, status), rep)
+                cases.append(Case("C19 hamilton y=%s h=%d p=%s" % (rats(yv), h, "none" if p is None else p), impl,
+                                  cmp=env_cmp(1e-6, scale=40), nontrivial=(got == "ok"), tag="hamilton-glue"))
+    # ---- periodogram(x, window, window_len) = smooth(periodogram(x)) with the errors of smooth ----------------
+    for _ in range(ctx.n(30, 200)):
+        n = ctx.rng.choice([3, 5, 9, 12, 13, 20, 21, 31, 40, ctx.rng.randint(3, 40), ctx.rng.randint(10, 40)])
+        wl = ctx.rng.choice([0, 1, 2, 3, 3, 3, 4, 4, 5, 5, 6, 7, 7, 8, 9, 11])
+        wn = ctx.rng.choice(["flat", "bartlett"])
+        x = np.array([float(F(ctx.rng.randint(-32, 32), 4)) for _i in range(n)])
+        w0, I0 = periodogram(x)
+        Iex = [F(float(v)) for v in I0]
+        m = n // 2 + 1
+        rep = {"op": "pgram_window", "x": x.tolist(), "wl": wl, "window": wn}
+        buf = io.StringIO()
+        try:
+            with contextlib.redirect_stdout(buf):
+                call = ctx.rng.randrange(3)
+                w1, I1 = (periodogram(x, wn, wl) if call == 0 else periodogram(x, window=wn, window_len=wl) if call == 1
+                          else periodogram(x, window_len=wl, window=wn))
+            impl = flist(float(v) for v in I1)
+            ctx.count("glue:pgram-window-ok" + ("-even-reset" if wl % 2 == 0 else ""))
+            if wl < 3 or m < wl:
+                ctx.spec_fail("periodogram_window_glue", "periodogram(n=%d, window_len=%d) returned although smooth must reject it" % (n, wl), rep)
+            else:
+                ref = smooth_exact(Iex, wl, wn)
+                sc = max([1] + [abs(v) for v in Iex])
+                if len(I1) != m or len(w1) != m or any(abs(F(float(a)) - b) > F(1, 10 ** 11) * sc for a, b in zip(I1, ref)) \
+                        or not np.array_equal(w1, w0):
+                    ctx.spec_fail("periodogram_window_glue", "periodogram(window=%s, window_len=%d) is not smooth of the %d raw ordinates" % (wn, wl, m), rep)
+        except ValueError as e:
+            impl = "ERR:ValueError:" + ("short" if ">= window" in str(e) else "small")
+            ctx.count("glue:pgram-window-" + impl)
+            if wl >= 3 and m >= wl:
+                ctx.spec_fail("periodogram_window_glue", "periodogram(n=%d, window_len=%d) raised %s on an admissible call" % (n, wl, e), rep)
+        cases.append(Case("C19 pgram_window I=%s wl=%d window=%s" % (rats(Iex), wl, wn), impl,
+                          cmp=env_cmp(1e-11, scale=float(max([1] + [abs(v) for v in Iex]))), nontrivial=not impl.startswith("ERR"), tag="pgram-window"))
+
 # ----------------------------------------------------------------------------------------------------
 # hamilton_filter
 
@@ -1825,6 +1915,7 @@ def run(ctx):
     arma_history_cases(ctx, cases)
     other_history_cases(ctx, cases)
     forms_cases(ctx, cases)
+    glue_cases(ctx, cases)
     hamilton_cases(ctx, cases)
     spectral_cases(ctx, cases)
     ctx.assumptions.append("FFT, scipy.signal.freqz/dimpulse/dlsim, sqrt, beta/binom of scipy.special are not modelled: the clauses that "
